@@ -29,11 +29,16 @@ DEV_OF = {  # named deviation of Pool.tla -> finding ids (any property) that kee
     "DevPartialAdd": ["C14-partial-add-on-pool-conflict"],
     "DevSharedIndex": ["C14-lookup-shared-index"],
     "DevEphDrop": ["C05-ephemeral-child-dropped", "C13-ephemeral-input-rejected"],
-    "DevParentOrder": ["C13-txset-parent-order"],
+    "DevStaleParents": ["C13-txset-stale-basis-parents"],
 }
 
 
 def deviations():
+    """open finding -> the deviation is tolerated by the specification (and reported by the audits);
+    VERIF_POOL_DEVS=none|all overrides (used to try candidate repairs against the strict rules)"""
+    ov = os.environ.get("VERIF_POOL_DEVS")
+    if ov in ("none", "all"):
+        return {dev: ov == "all" for dev in DEV_OF}
     data = json.load(open(os.path.join(vlib.VERIF, "known_findings.json")))
     open_ids = {f["id"] for f in data.get("findings", []) if f.get("status") == "open"}
     return {dev: any(i in open_ids for i in ids) for dev, ids in DEV_OF.items()}
@@ -178,7 +183,7 @@ def write_scens(wd, scens, name):
     return p
 
 
-NODEV = {"DevPartialAdd": False, "DevSharedIndex": False, "DevEphDrop": False, "DevParentOrder": False}
+NODEV = {"DevPartialAdd": False, "DevSharedIndex": False, "DevEphDrop": False, "DevStaleParents": False}
 
 
 def leg_m(wd, cfg, scfile, what, devs=None, timeout=900, workers=8, tag=None):
